@@ -215,6 +215,12 @@ func (n *norm) conv(e rawEv) M {
 		return M{"ev": "dunl", "c": c, "p": id}
 	case "mem_defrag_end":
 		return M{"ev": "dend", "c": c, "cnt": kvInt(kv, "cnt")}
+	case "mem_defrag_all":
+		return M{"ev": "dall", "c": c}
+	case "mem_defrag_begin":
+		return M{"ev": "dbegin", "c": c}
+	case "mem_defrag_all_end":
+		return M{"ev": "dallend"}
 	case "h_cb":
 		old, nw := kvPtr(kv, "old"), kvPtr(kv, "new")
 		r, ok := n.pg[old&^uintptr(n.t.PageSize-1)]
@@ -351,14 +357,15 @@ func check(b []byte, id int64) int {
 }
 
 type world struct {
-	a         *memory.Allocator
-	mu        sync.Mutex
-	byPtr     map[uintptr]*arec
-	fails     []M
-	next      atomic.Int64
-	maxShared int
-	ndropped  int
-	dropped   map[uintptr]bool // slices the driver abandoned after a failed check (never freed, never touched)
+	a                                    *memory.Allocator
+	mu                                   sync.Mutex
+	byPtr                                map[uintptr]*arec
+	fails                                []M
+	next                                 atomic.Int64
+	maxShared                            int
+	ndropped                             int
+	passes, passesMulti, passesMultiWork int
+	dropped                              map[uintptr]bool // slices the driver abandoned after a failed check (never freed, never touched)
 	// pages unlinked / slots moved in the defragmentation that is running (hook view)
 	cbSeen map[uintptr]int
 }
@@ -623,26 +630,51 @@ func runOne(w *world, cap_ *capture, nm *norm, enc *json.Encoder, t table, cfg r
 	lives := make([][]*arec, cfg.g)
 	for round := 0; round < cfg.rounds; round++ {
 		burst := cfg.defrag && round%2 == 1
-		burstClass := t.N - 1 - rnd.Intn(3)
-		burstN := t.Cap[burstClass] * (t.From + 2 + rnd.Intn(8))
-		keepPct := 5 + rnd.Intn(40)
+		// a burst fragments the largest class and one or two of its neighbours at the same time, so that
+		// DefragAllImproved runs several defragClass goroutines side by side; the first burst of a run is
+		// sized to put every chosen class above the threshold for certain, later ones reach arbitrary levels
+		burstClasses := []int{t.N - 1, t.N - 2 - rnd.Intn(2)}
+		if rnd.Intn(4) == 0 {
+			burstClasses = []int{t.N - 1, t.N - 2, t.N - 3}
+		}
+		// half of the records of 2*(From+2).. pages stay: > From pages worth of free slots for certain, hardly an
+		// empty page, so every chosen class has records to move
+		burstPages := 2*(t.From+2) + rnd.Intn(4)
+		keepPct := 45 + rnd.Intn(11)
+		if round > 1 {
+			burstPages = t.From + 2 + rnd.Intn(19)
+			keepPct = 5 + rnd.Intn(66)
+		}
+		var filled sync.WaitGroup // all goroutines fill first, then all free: freed slots are not taken again
+		filled.Add(cfg.g)
 		worker := func(g int, s int64) {
 			r := rand.New(rand.NewSource(s))
 			mine := lives[g]
 			if burst {
-				// fragment one large class: fill many pages, then free most of it in random order
-				var got []*arec
-				for i := 0; i < burstN/cfg.g+1; i++ {
-					if x := w.malloc(t.Data[burstClass] - r.Intn(2)); x != nil {
-						got = append(got, x)
+				// fragment the classes: fill many pages of each, then free most of it in random order
+				got := make([][]*arec, len(burstClasses))
+				for k, bc := range burstClasses {
+					for i := 0; i < t.Cap[bc]*burstPages/cfg.g+1; i++ {
+						if x := w.malloc(t.Data[bc] - r.Intn(2)); x != nil {
+							got[k] = append(got[k], x)
+						}
 					}
 				}
-				r.Shuffle(len(got), func(i, j int) { got[i], got[j] = got[j], got[i] })
-				for _, x := range got {
-					if r.Intn(100) < keepPct {
-						mine = append(mine, x)
-					} else {
-						w.free(x)
+				filled.Done()
+				filled.Wait()
+				for k := range got {
+					l := got[k]
+					r.Shuffle(len(l), func(i, j int) { l[i], l[j] = l[j], l[i] })
+					keep := len(l) * keepPct / 100 // exact numbers: the fragmentation level does not depend on luck
+					if g == 0 && keep == 0 {
+						keep = 1 // live records stay in every fragmented class
+					}
+					for i, x := range l {
+						if i < keep {
+							mine = append(mine, x)
+						} else {
+							w.free(x)
+						}
 					}
 				}
 				lives[g] = mine
@@ -706,13 +738,27 @@ func runOne(w *world, cap_ *capture, nm *norm, enc *json.Encoder, t table, cfg r
 			// which pages did the allocator unmap, which slots did it move (hook view, not yet flushed)
 			gone := map[uintptr]bool{}
 			moved := map[uintptr]int{}
+			chosen, worked := map[int]bool{}, map[int]bool{}
 			for _, e := range cap_.evs {
+				switch e.name {
+				case "mem_defrag_all":
+					chosen[kvInt(e.kv, "class")] = true
+				case "mem_defrag_sel":
+					worked[kvInt(e.kv, "class")] = true
+				}
 				switch e.name {
 				case "mem_unlink":
 					gone[kvPtr(e.kv, "page")] = true
 				case "mem_relocate":
 					moved[kvPtr(e.kv, "old")]++
 				}
+			}
+			w.passes++
+			if len(chosen) >= 2 {
+				w.passesMulti++ // several defragClass goroutines side by side
+			}
+			if len(worked) >= 2 {
+				w.passesMultiWork++ // ... and at least two of them relocated records
 			}
 			bad := false
 			for p, r := range before {
@@ -803,6 +849,7 @@ func cmdRecord(args []string) {
 	enc := json.NewEncoder(f)
 	out := vio.NewOut()
 	events, nfail := 0, 0
+	passes, multi, multiWork := 0, 0, 0
 	var t table
 	gs := []int{1, 2, 4, 16, 3, 8}
 	for r := 0; r < *runs; r++ {
@@ -840,11 +887,13 @@ func cmdRecord(args []string) {
 			out.Put(m)
 			nfail++
 		}
+		passes, multi, multiWork = passes+w.passes, multi+w.passesMulti, multiWork+w.passesMultiWork
 		a.VerifReset()
 	}
 	tj, _ := json.Marshal(t)
 	os.WriteFile(*outF+".opts.json", tj, 0660)
-	out.Put(M{"summary": true, "events": events, "runs": *runs, "fail": nfail, "gomaxprocs": runtime.GOMAXPROCS(0)})
+	out.Put(M{"summary": true, "events": events, "runs": *runs, "fail": nfail, "gomaxprocs": runtime.GOMAXPROCS(0),
+		"defrag_passes": passes, "passes_2_classes_chosen": multi, "passes_2_classes_relocating": multiWork})
 	out.Flush()
 }
 
@@ -1063,7 +1112,7 @@ func (rp *replayer) run(ln *Line, w *world) (step int, kind, what string) {
 	var dq []M // events of the defragmentation that has been run, not yet matched with model steps
 	events := func() (l []M) {
 		for _, e := range rp.cap_.take() {
-			if m := nm.conv(e); m != nil {
+			if m := nm.conv(e); m != nil && m["ev"] != "dall" && m["ev"] != "dbegin" && m["ev"] != "dallend" {
 				l = append(l, m)
 			}
 		}
